@@ -176,7 +176,7 @@ PROPS["C03"] = dict(
           "Non-trivial: at least two state-changing steps and, when the plan attaches allocation failures, at least one delivered. Distinct: distinct run digests."),
     probes=["grow", "grow_with_true_across_partial_block", "resize_to_zero", "whole_block_shift", "shift_ge_size", "whole_bitset_op_on_empty", "at_in_slack_of_last_block",
             "owner_write_behind_view", "view_constructed_over_dirty_memory", "view_handle_copied", "write_through_reverse_iterator", "compared_equal",
-            "recovered_after_allocation_failure", "allocation_failure_in_resize", "size_near_SIZE_MAX_refused", "moved_from_bitset_used_further", "bit_swapped_with_itself", "allocation_failure_in_push_back",
+            "recovered_after_allocation_failure", "allocation_failure_in_resize", "size_near_SIZE_MAX_refused", "moved_from_bitset_used_further", "bit_swapped_with_itself", "more_than_INT_MAX_set_bits", "allocation_failure_in_push_back",
             "shift_over_more_than_2^w_blocks_possible", "shift_skips_2^w_blocks_or_more", "caller_iterator_threw", "compared_with_view_over_own_storage"],
     components=dict(real=["include/xtl/xdynamic_bitset.hpp (xdynamic_bitset with std::allocator and a custom allocator, xdynamic_bitset_view, xbitset_reference, xbitset_iterator)", "include/xtl/xspan_impl.hpp (as the view's storage)"],
                     stub=["std::vector<bool> reference model", "FailingAllocator (k-th allocation of a step fails)", "caller-owned block arrays with guard blocks and seeded dirty contents", "owner actor writing viewed memory directly"]),
